@@ -7,7 +7,7 @@ from bibtexparser.middlewares import ResolveStringReferencesMiddleware
 from bibtexparser.model import DuplicateBlockKeyBlock, Entry, String
 from bibtexparser.splitter import Splitter
 
-from .. import bibgen, harness, splitcheck
+from .. import bibgen, harness, libgen, splitcheck
 from ..compare import canon
 
 PROP = "C11"
@@ -91,7 +91,7 @@ def o_deriv(deriv):
                 return ((f"other-block:{m}", splitcheck.describe_block(b), repr(splitcheck._rec(e))), True, sorted(cls))
     # --- the middleware alone: strings untouched, fields hold the definition's raw value
     base = Splitter(text).split()
-    only = bibtexparser.parse_string(text, parse_stack=[ResolveStringReferencesMiddleware()])
+    only = bibtexparser.parse_string(text, parse_stack=[libgen.maybe_preuse(ResolveStringReferencesMiddleware(), text)])
     for b0, b1, e in zip(base.blocks, only.blocks, expected):
         if e["kind"] != "entry":
             if canon(b0) != canon(b1):
